@@ -1,9 +1,341 @@
 ------------------------------ MODULE BoxLayout ------------------------------
-(* Fixed-layout boxes and configuration records as field tables. (stub, grows) *)
-EXTENDS Bytes
+(***************************************************************************)
+(* Fixed-layout boxes and decoder-configuration records as field tables     *)
+(* (ISO/IEC 14496-12 header boxes, 14496-14 esds, 14496-15 avcC/hvcC, the   *)
+(* AV1 / VP9 / Opus ISO-BMFF bindings), and the predicates that compare     *)
+(* the raw payload bytes reported by the independent reader with them.      *)
+(* Properties C19 (layout), C07 (configuration content), C18 (metadata).    *)
+(*                                                                          *)
+(* A field is <<name, offset (0-based in the payload), width, want>> where  *)
+(* want is a byte sequence that must be found there, or << >> (not judged). *)
+(* Multi-byte values are compared as byte sequences, never decoded, so      *)
+(* 32-bit quantities are safe under TLC's 32-bit integers.                  *)
+(***************************************************************************)
+EXTENDS Bytes, AnnexB, Av1Seq, Vp9Hdr, TLC
 
-RawSigsFile(F, cfg, v, a) == {}
-RawSigsSegment(S, cfg, q) == {}
-RawSigsInit(F, cfg) == {}
+LSig(p, q, site, cls) == << p, q, site, cls >>
+
+Zeros(n) == [i \in 1..n |-> 0]
+Fld(name, off, w, want) == << name, off, w, want >>
+At(b, off, w) == Slice(b, off + 1, off + w)           \* bytes [off, off+w) of a payload, 0-based offset
+
+IdentityMatrix == << 0,1,0,0 >> \o Zeros(12) \o << 0,1,0,0 >> \o Zeros(12) \o << 64,0,0,0 >>
+
+(* Generic check: size, then every judged field that lies inside the payload *)
+FieldTableSigs(prop, site, b, size, fields) ==
+         (IF size # -1 /\ Len(b) # size THEN {LSig(prop, "BoxLayout", site, ToString(<< "size", Len(b) >>))} ELSE {})
+    \cup { LSig(prop, "BoxLayout", site, f[1]) :
+             f \in { g \in { fields[i] : i \in 1..Len(fields) } :
+                       g[4] # << >> /\ (g[2] + g[3] > Len(b) \/ At(b, g[2], g[3]) # g[4]) } }
+
+(* ---- raw lookup ---- *)
+RawIdx(F, path) == { i \in 1..Len(F.raw) : F.raw[i].p = path }
+HasRaw(F, path) == RawIdx(F, path) # {}
+RawB(F, path) == LET r == F.raw[MinOf(RawIdx(F, path))] IN IF "b" \in DOMAIN r THEN r.b ELSE r.pre
+
+(* ---- ISO/IEC 14496-12 ---- *)
+MvhdFields(timescale) == <<
+    Fld("version-flags", 0, 4, Zeros(4)), Fld("timescale", 12, 4, BE32(timescale)),
+    Fld("rate", 20, 4, << 0,1,0,0 >>), Fld("volume", 24, 2, << 1,0 >>), Fld("reserved", 26, 10, Zeros(10)),
+    Fld("matrix", 36, 36, IdentityMatrix), Fld("pre_defined", 72, 24, Zeros(24)) >>
+
+TkhdFields(id, w, h, audio) == <<
+    Fld("version", 0, 1, << 0 >>), Fld("track_ID", 12, 4, BE32(id)), Fld("reserved-a", 16, 4, Zeros(4)),
+    Fld("reserved-b", 24, 8, Zeros(8)), Fld("reserved-c", 38, 2, Zeros(2)),
+    Fld("volume", 36, 2, IF audio THEN << 1, 0 >> ELSE << 0, 0 >>),
+    Fld("matrix", 40, 36, IdentityMatrix),
+    Fld("width", 76, 4, IF audio THEN Zeros(4) ELSE BE16(w) \o << 0, 0 >>),
+    Fld("height", 80, 4, IF audio THEN Zeros(4) ELSE BE16(h) \o << 0, 0 >>) >>
+
+MdhdFields(timescale) == <<
+    Fld("version-flags", 0, 4, Zeros(4)), Fld("timescale", 12, 4, BE32(timescale)), Fld("pre_defined", 22, 2, Zeros(2)) >>
+
+HdlrFields(handler) == <<
+    Fld("version-flags", 0, 4, Zeros(4)), Fld("pre_defined", 4, 4, Zeros(4)), Fld("handler_type", 8, 4, handler),
+    Fld("reserved", 12, 12, Zeros(12)) >>
+
+VisualEntryFields(w, h) == <<
+    Fld("reserved", 0, 6, Zeros(6)), Fld("data_reference_index", 6, 2, << 0, 1 >>), Fld("pre_defined-a", 8, 2, Zeros(2)),
+    Fld("reserved-b", 10, 2, Zeros(2)), Fld("pre_defined-c", 12, 12, Zeros(12)),
+    Fld("width", 24, 2, BE16(w)), Fld("height", 26, 2, BE16(h)),
+    Fld("horizresolution", 28, 4, << 0, 72, 0, 0 >>), Fld("vertresolution", 32, 4, << 0, 72, 0, 0 >>),
+    Fld("reserved-d", 36, 4, Zeros(4)), Fld("frame_count", 40, 2, << 0, 1 >>),
+    Fld("depth", 74, 2, << 0, 24 >>), Fld("pre_defined-e", 76, 2, << 255, 255 >>) >>
+
+AudioEntryFields(ch, rate) == <<
+    Fld("reserved", 0, 6, Zeros(6)), Fld("data_reference_index", 6, 2, << 0, 1 >>), Fld("reserved-b", 8, 8, Zeros(8)),
+    Fld("channelcount", 16, 2, BE16(ch)), Fld("samplesize", 18, 2, << 0, 16 >>), Fld("pre_defined", 20, 2, Zeros(2)),
+    Fld("reserved-c", 22, 2, Zeros(2)),
+    Fld("samplerate", 24, 4, IF rate < 65536 THEN BE16(rate) \o << 0, 0 >> ELSE << >>) >>
+
+Chars(s) == s     \* handler types are given as byte sequences below
+VIDE == << 118, 105, 100, 101 >>
+SOUN == << 115, 111, 117, 110 >>
+
+(* enabled flag: bit 0 of the 24-bit flags *)
+TkhdEnabled(b) == Len(b) >= 4 /\ b[4] % 2 = 1
+
+(* ---- ISO/IEC 14496-15: avcC / hvcC ---- *)
+AvcCExpected(sps, pps) ==
+    << 1, sps[2], sps[3], sps[4], 255, 225 >> \o BE16(Len(sps)) \o sps \o << 1 >> \o BE16(Len(pps)) \o pps
+
+AvcCSigs(prop, site, b, sps, pps) ==
+    IF Len(sps) < 4 \/ Len(sps) > 65535 \/ Len(pps) > 65535 THEN {}      \* profile bytes undefined / widths: C16
+    ELSE LET want == AvcCExpected(sps, pps) IN
+         IF b = want THEN {}
+         ELSE IF Len(b) < 8 THEN {LSig(prop, "AvcC", site, "truncated")}
+         ELSE (IF b[1] # 1 THEN {LSig(prop, "AvcC", site, "version")} ELSE {})
+         \cup (IF At(b, 1, 3) # At(want, 1, 3) THEN {LSig(prop, "AvcC", site, "profile-level")} ELSE {})
+         \cup (IF b[5] # 255 \/ b[6] # 225 THEN {LSig(prop, "AvcC", site, "reserved-bits")} ELSE {})
+         \cup (IF At(b, 6, 2 + Len(sps)) # BE16(Len(sps)) \o sps THEN {LSig(prop, "AvcC", site, "sps")} ELSE {})
+         \cup (IF Slice(b, 9 + Len(sps), Len(b)) # << 1 >> \o BE16(Len(pps)) \o pps THEN {LSig(prop, "AvcC", site, "pps")} ELSE {})
+
+(* hvcC arrays: parse from offset 22 (0-based); returns sequence of [type, res, nals] or <<-1>> *)
+RECURSIVE HvcNals(_, _, _)
+HvcNals(b, p, n) ==      \* p: 1-based position, n: nal units left in this array
+    IF n = 0 THEN [p |-> p, nals |-> << >>]
+    ELSE IF p + 1 > Len(b) THEN [p |-> -1, nals |-> << >>]
+    ELSE LET ln == U16(b, p) IN
+         IF p + 1 + ln > Len(b) THEN [p |-> -1, nals |-> << >>]
+         ELSE LET rest == HvcNals(b, p + 2 + ln, n - 1) IN
+              IF rest.p = -1 THEN rest ELSE [p |-> rest.p, nals |-> << Slice(b, p + 2, p + 1 + ln) >> \o rest.nals]
+RECURSIVE HvcArrays(_, _, _)
+HvcArrays(b, p, k) ==
+    IF k = 0 THEN [p |-> p, arrs |-> << >>]
+    ELSE IF p + 2 > Len(b) THEN [p |-> -1, arrs |-> << >>]
+    ELSE LET hd == b[p]  cnt == U16(b, p + 1)
+             ns == HvcNals(b, p + 3, cnt) IN
+         IF ns.p = -1 THEN [p |-> -1, arrs |-> << >>]
+         ELSE LET rest == HvcArrays(b, ns.p, k - 1) IN
+              IF rest.p = -1 THEN rest
+              ELSE [p |-> rest.p, arrs |-> << [type |-> hd % 64, res |-> (hd \div 64) % 2, nals |-> ns.nals] >> \o rest.arrs]
+
+HvcCSigs(prop, site, b, vps, sps, pps) ==
+    IF Len(b) < 23 THEN {LSig(prop, "HvcC", site, "truncated")}
+    ELSE LET arr == HvcArrays(b, 24, b[23])
+             ofType(t) == { i \in 1..Len(arr.arrs) : arr.arrs[i].type = t }
+             nalOK(t, u) == \E i \in ofType(t) : arr.arrs[i].nals = << u >>
+         IN
+         (IF b[1] # 1 THEN {LSig(prop, "HvcC", site, "version")} ELSE {})
+    \cup (IF b[14] \div 16 # 15 \/ b[16] \div 4 # 63 \/ b[17] \div 4 # 63 \/ b[18] \div 8 # 31 \/ b[19] \div 8 # 31
+          THEN {LSig(prop, "HvcC", site, "reserved-bits")} ELSE {})
+    \cup (IF b[22] % 4 # 3 THEN {LSig(prop, "HvcC", site, "lengthSizeMinusOne")} ELSE {})
+    \cup (IF Len(sps) >= 15 /\ (b[2] # sps[4] \/ b[13] # sps[15]) THEN {LSig(prop, "HvcC", site, "profile-tier-level")} ELSE {})
+    \cup (IF arr.p = -1 \/ arr.p # Len(b) + 1 THEN {LSig(prop, "HvcC", site, "arrays-do-not-tile")}
+          ELSE (IF \E i \in 1..Len(arr.arrs) : arr.arrs[i].res # 0 THEN {LSig(prop, "HvcC", site, "array-reserved-bit")} ELSE {})
+          \cup (IF ~nalOK(32, vps) THEN {LSig(prop, "HvcC", site, "vps")} ELSE {})
+          \cup (IF ~nalOK(33, sps) THEN {LSig(prop, "HvcC", site, "sps")} ELSE {})
+          \cup (IF ~nalOK(34, pps) THEN {LSig(prop, "HvcC", site, "pps")} ELSE {}))
+
+(* ---- AV1-ISOBMFF av1C ---- *)
+Av1CSigs(prop, site, b, obu) ==       \* obu: the sequence header OBU as submitted
+    LET r == ParseSeqHdr(LET o == ObuAt(obu, 1) IN Slice(obu, o.hdr + 1, o.total)) IN
+    IF Len(b) < 4 THEN {LSig(prop, "Av1C", site, "truncated")}
+    ELSE (IF b[1] # 129 THEN {LSig(prop, "Av1C", site, "marker-version")} ELSE {})
+    \cup (IF r.ok /\ (b[2] # Av1CHeader(r)[2] \/ b[3] # Av1CHeader(r)[3])
+          THEN {LSig(prop, "Av1C", site,
+                     IF b[2] # Av1CHeader(r)[2] THEN "profile-level"
+                     ELSE IF b[3] \div 128 # r.tier THEN "tier"
+                     ELSE IF (b[3] \div 32) % 4 # r.hb * 2 + r.tb THEN "bit-depth"
+                     ELSE IF b[3] % 4 # r.csp THEN "chroma-sample-position" ELSE "chroma")} ELSE {})
+    \cup (IF b[4] \div 32 # 0 THEN {LSig(prop, "Av1C", site, "reserved-bits")} ELSE {})
+    \cup (IF Slice(b, 5, Len(b)) # obu THEN {LSig(prop, "Av1C", site, "configOBUs")} ELSE {})
+
+(* ---- VP9 binding vpcC: FullBox(version 1, flags 0) + 8-byte record ---- *)
+VpcCSigs(prop, site, b, f) ==         \* f: Vp9Fields of the first key frame; level is not judged
+    IF Len(b) # 12 THEN {LSig(prop, "VpcC", site, ToString(<< "size", Len(b) >>))}
+    ELSE (IF At(b, 0, 4) # << 1, 0, 0, 0 >> THEN {LSig(prop, "VpcC", site, "fullbox-header")} ELSE {})
+    \cup (IF b[5] # f.profile THEN {LSig(prop, "VpcC", site, "profile")} ELSE {})
+    \cup (IF b[7] \div 16 # f.depth THEN {LSig(prop, "VpcC", site, "bit-depth")} ELSE {})
+    \cup (IF b[7] % 2 # f.fr THEN {LSig(prop, "VpcC", site, "full-range")} ELSE {})
+    \cup (IF At(b, 10, 2) # << 0, 0 >> THEN {LSig(prop, "VpcC", site, "codecInitializationDataSize")} ELSE {})
+
+(* what the pinned layout (8 plain bytes: version, profile, level, depth, cs, tf, mc, range) still lets us compare *)
+VpcCPlainSigs(prop, site, b, f) ==
+    IF Len(b) # 8 THEN {}
+    ELSE (IF b[2] # f.profile THEN {LSig(prop, "VpcCContent", site, "profile")} ELSE {})
+    \cup (IF b[4] # f.depth THEN {LSig(prop, "VpcCContent", site, "bit-depth")} ELSE {})
+    \cup (IF b[5] # f.cs \/ b[6] # f.tf \/ b[7] # f.mc THEN {LSig(prop, "VpcCContent", site, "colour")} ELSE {})
+    \cup (IF b[8] # f.fr THEN {LSig(prop, "VpcCContent", site, "full-range")} ELSE {})
+
+(* ---- ISO/IEC 14496-14 esds ---- *)
+SfiOf(rate) == CASE rate = 96000 -> 0 [] rate = 88200 -> 1 [] rate = 64000 -> 2 [] rate = 48000 -> 3 [] rate = 44100 -> 4
+                 [] rate = 32000 -> 5 [] rate = 24000 -> 6 [] rate = 22050 -> 7 [] rate = 16000 -> 8 [] rate = 12000 -> 9
+                 [] rate = 11025 -> 10 [] rate = 8000 -> 11 [] rate = 7350 -> 12 [] OTHER -> -1
+ChanCfgOf(ch) == IF ch \in 1..6 THEN ch ELSE IF ch = 8 THEN 7 ELSE -1
+
+EsdsSigs(prop, site, b, rate, ch) ==
+    IF Len(b) < 4 + 2 + 3 + 2 + 13 + 2 + 2 + 3 THEN {LSig(prop, "Esds", site, "truncated")}
+    ELSE LET es == 5      \* 1-based position of the ES_Descriptor tag
+             esLen == b[es + 1]
+             dc == es + 5     \* DecoderConfigDescriptor tag
+             dcLen == b[dc + 1]
+             dsi == dc + 15   \* DecoderSpecificInfo tag
+             dsiLen == b[dsi + 1]
+             sl == dsi + 2 + dsiLen
+         IN
+         (IF At(b, 0, 4) # Zeros(4) THEN {LSig(prop, "Esds", site, "version-flags")} ELSE {})
+    \cup (IF b[es] # 3 \/ b[dc] # 4 \/ b[dsi] # 5 THEN {LSig(prop, "Esds", site, "descriptor-tags")}
+          ELSE (IF esLen >= 128 \/ dcLen >= 128 \/ dsiLen >= 128 THEN {}      \* multi-byte lengths: not produced, not judged
+                ELSE (IF es + 1 + esLen # Len(b) THEN {LSig(prop, "Esds", site, "es-length")} ELSE {})
+                \cup (IF dc + 1 + dcLen # dsi + 1 + dsiLen THEN {LSig(prop, "Esds", site, "decoder-config-length")} ELSE {})
+                \cup (IF sl + 2 > Len(b) \/ b[sl] # 6 \/ b[sl + 1] # 1 \/ sl + 2 # Len(b)
+                      THEN {LSig(prop, "Esds", site, "sl-config")} ELSE {})
+                \cup (IF b[dc + 2] # 64 THEN {LSig(prop, "Esds", site, "objectTypeIndication")} ELSE {})
+                \cup (IF b[dc + 3] # 21 THEN {LSig(prop, "Esds", site, "streamType")} ELSE {})
+                \cup (IF dsiLen < 2 THEN {LSig(prop, "Esds", site, "asc-length")}
+                      ELSE LET asc0 == b[dsi + 2]  asc1 == b[dsi + 3]
+                               sfi == (asc0 % 8) * 2 + asc1 \div 128
+                               cc == (asc1 \div 8) % 16
+                           IN (IF SfiOf(rate) # -1 /\ sfi # SfiOf(rate) THEN {LSig("C07", "AudioConfig", site, "sampling-frequency-index")} ELSE {})
+                           \cup (IF ChanCfgOf(ch) # -1 /\ cc # ChanCfgOf(ch) THEN {LSig("C07", "AudioConfig", site, "channel-configuration")} ELSE {}))))
+
+(* ---- Opus in ISOBMFF: dOps ---- *)
+DOpsSigs(prop, site, b, ch) ==
+    IF Len(b) < 11 THEN {LSig(prop, "DOps", site, "truncated")}
+    ELSE (IF b[1] # 0 THEN {LSig(prop, "DOps", site, "version")} ELSE {})
+    \cup (IF b[2] # ch THEN {LSig("C07", "AudioConfig", site, "output-channel-count")} ELSE {})
+    \cup (IF At(b, 4, 4) # << 0, 0, 187, 128 >> THEN {} ELSE {})          \* InputSampleRate is informational
+    \cup (IF b[11] = 0 THEN (IF Len(b) # 11 THEN {LSig(prop, "DOps", site, "size")} ELSE {})
+                            \cup (IF ch > 2 THEN {LSig(prop, "DOps", site, "family0-needs-mono-or-stereo")} ELSE {})
+          ELSE IF Len(b) # 11 + 2 + b[2] THEN {LSig(prop, "DOps", site, "mapping-size")} ELSE {})
+
+-----------------------------------------------------------------------------
+(* Entry points: progressive file, init segment, media segment.              *)
+(* cfg: the instance configuration; v: accepted video samples (v[1].src is   *)
+(* the first key frame as submitted).                                        *)
+
+EntryOf(vc) == IF vc = "h264" THEN "avc1" ELSE IF vc = "h265" THEN "hvc1" ELSE IF vc = "av1" THEN "av01" ELSE "vp09"
+CfgBoxOf(vc) == IF vc = "h264" THEN "avcC" ELSE IF vc = "h265" THEN "hvcC" ELSE IF vc = "av1" THEN "av1C" ELSE "vpcC"
+
+NeedRaw(F, path, site, S(_)) == IF HasRaw(F, path) THEN S(RawB(F, path)) ELSE {LSig("C19", "BoxLayout", site, "missing")}
+
+VideoConfigSigs(F, path, site, vc, first) ==     \* first: first key frame bytes as submitted
+    NeedRaw(F, path, site, LAMBDA b :
+        IF vc = "h264" THEN AvcCSigs("C07", site, b, H264Sps(first), H264Pps(first))
+                            \cup (IF Len(b) >= 6 /\ (b[1] # 1 \/ b[5] # 255 \/ b[6] # 225) THEN {LSig("C19", "AvcC", site, "version-reserved")} ELSE {})
+        ELSE IF vc = "h265" THEN
+             { IF s[4] \in {"vps", "sps", "pps", "profile-tier-level"} THEN LSig("C07", s[2], s[3], s[4]) ELSE s
+               : s \in HvcCSigs("C19", site, b, H265Vps(first), H265Sps(first), H265Pps(first)) }
+        ELSE IF vc = "av1" THEN
+             { IF s[4] \in {"marker-version", "reserved-bits", "truncated"} THEN LSig("C19", s[2], s[3], s[4]) ELSE s
+               : s \in Av1CSigs("C07", site, b, Av1SeqObuBytes(first)) }
+        ELSE VpcCSigs("C19", site, b, Vp9Fields(first)) \cup VpcCPlainSigs("C07", site, b, Vp9Fields(first)))
+
+TrackIdOf(F, t) == F.tracks[t].tid
+
+ProgressiveRawSigs(F, cfg, firstKey, hasVideo) ==
+    LET vt == "moov.trak0"  at == "moov.trak1"
+        hasA == cfg.ac # "none"
+        ent == EntryOf(cfg.vc)
+        vstsd == vt \o ".mdia.minf.stbl.stsd"
+        astsd == at \o ".mdia.minf.stbl.stsd"
+        aent == IF cfg.ac = "opus" THEN "Opus" ELSE "mp4a"
+        ids == { F.tracks[t].tid : t \in 1..Len(F.tracks) }
+    IN
+         NeedRaw(F, "moov.mvhd", "progressive/mvhd", LAMBDA b : FieldTableSigs("C19", "progressive/mvhd", b, 100, MvhdFields(1000))
+                \cup (IF Len(b) = 100 /\ ~FitsU32(b, 97) THEN {} ELSE
+                      IF Len(b) = 100 /\ \E i \in ids : U32(b, 97) <= i THEN {LSig("C19", "Recovered", "progressive/mvhd", "next_track_ID")} ELSE {}))
+    \cup (IF F.mvts # 1000 THEN {LSig("C19", "Recovered", "progressive/mvhd", "movie-timescale")} ELSE {})
+    \cup (IF 0 \in ids \/ Cardinality(ids) # Len(F.tracks) THEN {LSig("C19", "Recovered", "progressive/tkhd", "track-ids")} ELSE {})
+    \cup NeedRaw(F, vt \o ".tkhd", "progressive/tkhd", LAMBDA b :
+              FieldTableSigs("C19", "progressive/tkhd", b, 84, TkhdFields(1, cfg.w, cfg.h, FALSE))
+              \cup (IF ~TkhdEnabled(b) THEN {LSig("C19", "Recovered", "progressive/tkhd", "track-not-enabled")} ELSE {}))
+    \cup NeedRaw(F, vt \o ".mdia.mdhd", "progressive/mdhd", LAMBDA b : FieldTableSigs("C19", "progressive/mdhd", b, 24, MdhdFields(90000)))
+    \cup NeedRaw(F, vt \o ".mdia.hdlr", "progressive/hdlr", LAMBDA b : FieldTableSigs("C19", "progressive/hdlr", b, -1, HdlrFields(VIDE))
+              \cup (IF Len(b) < 25 \/ b[Len(b)] # 0 THEN {LSig("C19", "BoxLayout", "progressive/hdlr", "name")} ELSE {}))
+    \cup NeedRaw(F, vt \o ".mdia.minf.vmhd", "progressive/vmhd", LAMBDA b : FieldTableSigs("C19", "progressive/vmhd", b, 12, << Fld("version", 0, 1, << 0 >>) >>))
+    \cup NeedRaw(F, vt \o ".mdia.minf.dinf.dref", "progressive/dref", LAMBDA b : FieldTableSigs("C19", "progressive/dref", b, 8, << Fld("version-flags", 0, 4, Zeros(4)), Fld("entry_count", 4, 4, << 0,0,0,1 >>) >>))
+    \cup NeedRaw(F, vstsd, "progressive/stsd", LAMBDA b : FieldTableSigs("C19", "progressive/stsd", b, 8, << Fld("version-flags", 0, 4, Zeros(4)), Fld("entry_count", 4, 4, << 0,0,0,1 >>) >>))
+    \cup (IF hasVideo THEN
+             (IF F.tracks[1].entry # ent THEN {LSig("C07", "SampleEntry", "progressive/video", ToString(<< "type", F.tracks[1].entry >>))} ELSE
+              NeedRaw(F, vstsd \o "." \o ent, "progressive/" \o ent, LAMBDA b :
+                    { IF s[4] \in {"width", "height"} THEN LSig("C07", "SampleEntry", s[3], s[4]) ELSE s
+                      : s \in FieldTableSigs("C19", "progressive/" \o ent, b, 78, VisualEntryFields(cfg.w, cfg.h)) })
+              \cup VideoConfigSigs(F, vstsd \o "." \o ent \o "." \o CfgBoxOf(cfg.vc), "progressive/" \o CfgBoxOf(cfg.vc), cfg.vc, firstKey))
+          ELSE {})
+    \cup (IF hasA THEN
+             NeedRaw(F, at \o ".tkhd", "progressive/tkhd-audio", LAMBDA b :
+                  FieldTableSigs("C19", "progressive/tkhd-audio", b, 84, TkhdFields(TrackIdOf(F, 2), 0, 0, TRUE))
+                  \cup (IF ~TkhdEnabled(b) THEN {LSig("C19", "Recovered", "progressive/tkhd-audio", "track-not-enabled")} ELSE {}))
+        \cup NeedRaw(F, at \o ".mdia.mdhd", "progressive/mdhd-audio", LAMBDA b : FieldTableSigs("C19", "progressive/mdhd-audio", b, 24, MdhdFields(90000)))
+        \cup NeedRaw(F, at \o ".mdia.hdlr", "progressive/hdlr-audio", LAMBDA b : FieldTableSigs("C19", "progressive/hdlr-audio", b, -1, HdlrFields(SOUN)))
+        \cup NeedRaw(F, at \o ".mdia.minf.smhd", "progressive/smhd", LAMBDA b : FieldTableSigs("C19", "progressive/smhd", b, 8, << Fld("version-flags", 0, 4, Zeros(4)), Fld("reserved", 6, 2, Zeros(2)) >>))
+        \cup (IF F.tracks[2].entry # aent THEN {LSig("C07", "SampleEntry", "progressive/audio", ToString(<< "type", F.tracks[2].entry >>))} ELSE
+              NeedRaw(F, astsd \o "." \o aent, "progressive/" \o aent, LAMBDA b :
+                    { IF s[4] \in {"channelcount", "samplerate"} THEN LSig("C07", "SampleEntry", s[3], s[4]) ELSE s
+                      : s \in FieldTableSigs("C19", "progressive/" \o aent, b, 28,
+                                        AudioEntryFields(cfg.ch, IF cfg.ac = "opus" THEN 48000 ELSE cfg.rate)) })
+              \cup (IF cfg.ac = "aac"
+                    THEN NeedRaw(F, astsd \o ".mp4a.esds", "progressive/esds", LAMBDA b : EsdsSigs("C19", "progressive/esds", b, cfg.rate, cfg.ch))
+                    ELSE NeedRaw(F, astsd \o ".Opus.dOps", "progressive/dOps", LAMBDA b : DOpsSigs("C19", "progressive/dOps", b, cfg.ch))))
+          ELSE {})
+
+RawSigsFile(F, cfg, v, a) ==
+    IF ~("raw" \in DOMAIN F) THEN {}
+    ELSE ProgressiveRawSigs(F, cfg, IF v = << >> THEN << >> ELSE v[1].src, v # << >>)
+
+(* ---- fragmented init segment: parameter sets come from the builder (cfg.sps / pps / vps / av1 / vp9) ---- *)
+InitConfigSigs(F, path, site, cfg) ==
+    NeedRaw(F, path, site, LAMBDA b :
+        IF cfg.vc = "h264" THEN AvcCSigs("C07", site, b, cfg.sps, cfg.pps)
+                            \cup (IF Len(b) >= 6 /\ (b[1] # 1 \/ b[5] # 255 \/ b[6] # 225) THEN {LSig("C19", "AvcC", site, "version-reserved")} ELSE {})
+        ELSE IF cfg.vc = "h265" THEN
+             { IF s[4] \in {"vps", "sps", "pps", "profile-tier-level"} THEN LSig("C07", s[2], s[3], s[4]) ELSE s
+               : s \in HvcCSigs("C19", site, b, cfg.vps, cfg.sps, cfg.pps) }
+        ELSE IF cfg.vc = "av1" THEN
+             { IF s[4] \in {"marker-version", "reserved-bits", "truncated"} THEN LSig("C19", s[2], s[3], s[4]) ELSE s
+               : s \in Av1CSigs("C07", site, b, cfg.av1) }
+        ELSE LET f == [profile |-> cfg.vp9.profile, depth |-> cfg.vp9.bit_depth, cs |-> cfg.vp9.color_space,
+                       tf |-> cfg.vp9.transfer_function, mc |-> cfg.vp9.matrix_coefficients, fr |-> cfg.vp9.full_range_flag]
+             IN VpcCSigs("C19", site, b, f) \cup VpcCPlainSigs("C07", site, b, f))
+
+RawSigsInit(F, cfg) ==
+    IF ~("raw" \in DOMAIN F) \/ ~cfg.judge_config THEN {}
+    ELSE LET vt == "moov.trak0"
+             ent == EntryOf(cfg.vc)
+             vstsd == vt \o ".mdia.minf.stbl.stsd"
+         IN
+         NeedRaw(F, "moov.mvhd", "init/mvhd", LAMBDA b : FieldTableSigs("C19", "init/mvhd", b, 100, MvhdFields(cfg.timescale))
+                \cup (IF Len(b) = 100 /\ FitsU32(b, 97) /\ U32(b, 97) <= 1 THEN {LSig("C19", "Recovered", "init/mvhd", "next_track_ID")} ELSE {}))
+    \cup NeedRaw(F, vt \o ".tkhd", "init/tkhd", LAMBDA b :
+              FieldTableSigs("C19", "init/tkhd", b, 84, TkhdFields(1, cfg.w, cfg.h, FALSE))
+              \cup (IF ~TkhdEnabled(b) THEN {LSig("C19", "Recovered", "init/tkhd", "track-not-enabled")} ELSE {}))
+    \cup NeedRaw(F, vt \o ".mdia.mdhd", "init/mdhd", LAMBDA b : FieldTableSigs("C19", "init/mdhd", b, 24, MdhdFields(cfg.timescale)))
+    \cup NeedRaw(F, vt \o ".mdia.hdlr", "init/hdlr", LAMBDA b : FieldTableSigs("C19", "init/hdlr", b, -1, HdlrFields(VIDE))
+              \cup (IF Len(b) < 25 \/ b[Len(b)] # 0 THEN {LSig("C19", "BoxLayout", "init/hdlr", "name")} ELSE {}))
+    \cup NeedRaw(F, vt \o ".mdia.minf.vmhd", "init/vmhd", LAMBDA b : FieldTableSigs("C19", "init/vmhd", b, 12, << Fld("version", 0, 1, << 0 >>) >>))
+    \cup NeedRaw(F, vt \o ".mdia.minf.dinf.dref", "init/dref", LAMBDA b : FieldTableSigs("C19", "init/dref", b, 8, << Fld("version-flags", 0, 4, Zeros(4)), Fld("entry_count", 4, 4, << 0,0,0,1 >>) >>))
+    \cup NeedRaw(F, vstsd, "init/stsd", LAMBDA b : FieldTableSigs("C19", "init/stsd", b, 8, << Fld("version-flags", 0, 4, Zeros(4)), Fld("entry_count", 4, 4, << 0,0,0,1 >>) >>))
+    \cup NeedRaw(F, "moov.mvex.trex", "init/trex", LAMBDA b : FieldTableSigs("C19", "init/trex", b, 24,
+              << Fld("version-flags", 0, 4, Zeros(4)), Fld("track_ID", 4, 4, << 0,0,0,1 >>), Fld("default_sample_description_index", 8, 4, << 0,0,0,1 >>) >>))
+    \cup (IF F.tracks = << >> THEN {} ELSE
+          IF F.tracks[1].entry # ent THEN {LSig("C07", "SampleEntry", "init/video", ToString(<< "type", F.tracks[1].entry >>))} ELSE
+          NeedRaw(F, vstsd \o "." \o ent, "init/" \o ent, LAMBDA b :
+                { IF s[4] \in {"width", "height"} THEN LSig("C07", "SampleEntry", s[3], s[4]) ELSE s
+                  : s \in FieldTableSigs("C19", "init/" \o ent, b, 78, VisualEntryFields(cfg.w, cfg.h)) })
+          \cup InitConfigSigs(F, vstsd \o "." \o ent \o "." \o CfgBoxOf(cfg.vc), "init/" \o CfgBoxOf(cfg.vc), cfg))
+
+(* ---- media segment: mfhd / tfhd / tfdt / trun sizes and versions ---- *)
+RawSigsSegment(S, cfg, q) ==
+    IF ~("raw" \in DOMAIN S) THEN {}
+    ELSE NeedRaw(S, "moof.mfhd", "segment/mfhd", LAMBDA b : FieldTableSigs("C19", "segment/mfhd", b, 8, << Fld("version-flags", 0, 4, Zeros(4)) >>))
+    \cup NeedRaw(S, "moof.traf.tfhd", "segment/tfhd", LAMBDA b :
+             (IF Len(b) < 8 \/ b[1] # 0 THEN {LSig("C19", "BoxLayout", "segment/tfhd", "version")} ELSE {})
+             \cup (IF Len(b) >= 8 /\ At(b, 4, 4) # << 0,0,0,1 >> THEN {LSig("C19", "BoxLayout", "segment/tfhd", "track_ID")} ELSE {})
+             \cup (IF Len(b) >= 4 /\ Len(b) # 8 + 8 * (b[4] % 2) + 4 * ((b[4] \div 2) % 2) + 4 * ((b[4] \div 8) % 2) + 4 * ((b[4] \div 16) % 2) + 4 * ((b[4] \div 32) % 2)
+                   THEN {LSig("C19", "BoxLayout", "segment/tfhd", "size")} ELSE {}))
+    \cup NeedRaw(S, "moof.traf.tfdt", "segment/tfdt", LAMBDA b :
+             IF Len(b) < 4 THEN {LSig("C19", "BoxLayout", "segment/tfdt", "truncated")}
+             ELSE IF b[1] = 1 THEN (IF Len(b) # 12 THEN {LSig("C19", "BoxLayout", "segment/tfdt", "size")} ELSE {})
+             ELSE IF b[1] = 0 THEN (IF Len(b) # 8 THEN {LSig("C19", "BoxLayout", "segment/tfdt", "size")} ELSE {})
+             ELSE {LSig("C19", "BoxLayout", "segment/tfdt", "version")})
+    \cup NeedRaw(S, "moof.traf.trun", "segment/trun", LAMBDA b :
+             IF Len(b) < 8 THEN {LSig("C19", "BoxLayout", "segment/trun", "truncated")}
+             ELSE LET fl == b[4]  fh == b[3]
+                      per == 4 * (fh % 2) + 4 * ((fh \div 2) % 2) + 4 * ((fh \div 4) % 2) + 4 * ((fh \div 8) % 2)
+                      fixed == 8 + 4 * (fl % 2) + 4 * ((fl \div 4) % 2)
+                  IN (IF b[1] > 1 THEN {LSig("C19", "BoxLayout", "segment/trun", "version")} ELSE {})
+                  \cup (IF Len(b) # fixed + per * Len(q) THEN {LSig("C19", "BoxLayout", "segment/trun", "size")} ELSE {}))
 
 =============================================================================
